@@ -31,7 +31,7 @@ Lbl ==
      ELSE IF polled # {} THEN <<[op |-> "next", h |-> CHOOSE h \in polled : TRUE]>>
      ELSE IF ended # {} THEN <<[op |-> "next", h |-> CHOOSE h \in ended : TRUE]>>
      ELSE IF unsubbed # {} THEN <<[op |-> "unsub", h |-> CHOOSE h \in unsubbed : TRUE]>>
-     ELSE IF dropped # {} THEN <<[op |-> "drop", h |-> CHOOSE h \in dropped : TRUE]>>
+     ELSE IF dropped # {} THEN <<[op |-> "drop", h |-> CHOOSE h \in dropped : TRUE, lost |-> (toBack' = toBack)]>>    \* lost: try_send found the queue full
      ELSE IF \E h \in Ops : fe[h].st # "abandoned" /\ fe'[h].st = "abandoned"
        THEN <<[op |-> "abandon", h |-> CHOOSE h \in Ops : fe[h].st # "abandoned" /\ fe'[h].st = "abandoned"]>>
      ELSE IF fault' # fault THEN <<[op |-> "fault", f |-> CHOOSE f \in fault' : TRUE]>>
@@ -72,8 +72,10 @@ OneArray ==
   LET n == Pick(1..MaxArr)
       one(i) == LET s == IF Gate(16) THEN OneSingle ELSE OnePush IN IF s = {} THEN [t |-> "mnotif"] ELSE CHOOSE x \in s : TRUE
   IN {[t |-> "array", elems |-> [i \in 1..n |-> one(i)]]}
+LostDrops == {stream[h].sub : h \in {g \in Subs : stream[g].rx = "dropped" /\ Has(subIdx, stream[g].sub)}}   \* given up, close request lost or still under way
 OneText ==
   LET k == Pick(1..10) IN
+  IF LostDrops # {} /\ Gate(2) THEN {Notif(Pick(LostDrops))} ELSE
   IF k <= 5 THEN OneSingle
   ELSE IF k <= 7 THEN (IF bat # {} THEN BatchShaped ELSE OneArray)
   ELSE IF k <= 9 THEN OneArray
@@ -100,8 +102,13 @@ GStep ==
         \/ Gate(FaultGate) /\ FaultNext /\ UNCHANGED held
         \/ Gate(AbandonGate) /\ (\E h \in Ops : fe[h].st # "idle" /\ FeAbandon(h)) /\ UNCHANGED held
         \/ rt = "run" /\ (\E m \in OneText : PeerSend(m)) /\ UNCHANGED held
-  \/ /\ held = "no" /\ st = "run" /\ Gate(HoldGate) /\ held' = "armed" /\ UNCHANGED vars
-  \/ /\ held # "no" /\ (Gate(8) \/ (held = "stuck" /\ Len(toBack) = MaxQueue /\ Gate(2))) /\ held' = "no" /\ UNCHANGED vars
+  \/ /\ held = "no" /\ st = "run"
+     /\ IF (\E h \in Subs : stream[h].rx = "held") /\ Cardinality({h \in Ops : fe[h].st = "idle"}) > MaxQueue THEN Gate(2) ELSE Gate(HoldGate)
+     /\ held' = "armed" /\ UNCHANGED vars
+  \/ /\ held # "no"
+     /\ IF held = "stuck" /\ Len(toBack) = MaxQueue THEN (Gate(2) /\ ~\E h \in Subs : stream[h].rx = "held") \/ Gate(12)
+        ELSE Gate(10)
+     /\ held' = "no" /\ UNCHANGED vars
 GNext ==
   \/ /\ Len(script) < ScriptLen
      /\ GStep
